@@ -34,8 +34,11 @@ import (
 	"encoding/hex"
 	"encoding/json"
 	"fmt"
+	"os"
 	"runtime/debug"
+	"runtime/pprof"
 	"sort"
+	"strconv"
 	"strings"
 	"sync"
 	"time"
@@ -94,6 +97,12 @@ type source struct {
 	foreign map[string][]byte // hash -> node at the same position of the trie with the same keys and other values
 	flood   [][]byte          // all nodes of that other trie
 	garbage [][]byte          // byte strings that are not (valid) nodes
+	// garbageQuiet = the garbage items on which the interceptor does not panic
+	garbageQuiet [][]byte
+	garbageClass map[string]int
+	panics       []string
+	menuMu       sync.Mutex
+	menus        map[string][]action
 }
 
 func newTrieOver(db data.DBWriteCacher) data.Trie {
@@ -202,6 +211,36 @@ func buildSource(id int, keys []string) *source {
 		append(append([]byte{}, rootEnc[:n-1]...), 0x0a, 0x00, 2), // root + one more (empty) child entry, as a branch
 		hasher.Compute(string(rootEnc)),                           // a bare hash
 	}
+	// Classify every garbage item once with the real interceptor functions. Items on which
+	// NewInterceptedTrieNode/CheckValidity panic (DESIGN section 0 side observation) are not
+	// delivered again inside the exploration: both functions depend on the bytes only and the
+	// panic happens before Save, so such a message cannot change any state.
+	s.garbageClass = map[string]int{}
+	for _, g := range s.garbage {
+		var cls string
+		perr := mc.Try(func() {
+			n, err := trie.NewInterceptedTrieNode(append([]byte{}, g...), marsh, hasher)
+			if err != nil {
+				cls = "rejected-by-decoder"
+				return
+			}
+			if err = n.CheckValidity(); err != nil {
+				cls = "rejected-by-CheckValidity"
+				return
+			}
+			cls = "accepted-as-node"
+		})
+		if perr != "" {
+			cls = "panic"
+			if i := strings.Index(perr, " @ "); i > 0 {
+				s.panics = append(s.panics, perr[:i]+" <"+hx(g[:min(len(g), 4)])+"..>")
+			}
+		} else {
+			s.garbageQuiet = append(s.garbageQuiet, g)
+		}
+		s.garbageClass[cls]++
+	}
+	s.menus = map[string][]action{}
 	return s
 }
 
@@ -327,6 +366,21 @@ type action struct {
 //	flood            deliver everything plus all nodes of the other trie
 //	garbage          deliver everything plus the byte strings that are not valid nodes
 func (s *source) menu(req []string) []action {
+	key := strings.Join(req, "")
+	s.menuMu.Lock()
+	m, ok := s.menus[key]
+	s.menuMu.Unlock()
+	if ok {
+		return m
+	}
+	m = s.buildMenu(req)
+	s.menuMu.Lock()
+	s.menus[key] = m
+	s.menuMu.Unlock()
+	return m
+}
+
+func (s *source) buildMenu(req []string) []action {
 	var all [][]byte
 	var reqKnown []string
 	inReq := map[string]bool{}
@@ -387,7 +441,7 @@ func (s *source) menu(req []string) []action {
 		}
 	}
 	acts = append(acts, action{kind: "flood", msgs: append(append([][]byte{}, all...), s.flood...)})
-	acts = append(acts, action{kind: "garbage", msgs: append(append([][]byte{}, all...), s.garbage...)})
+	acts = append(acts, action{kind: "garbage", msgs: append(append([][]byte{}, all...), s.garbageQuiet...)})
 	return acts
 }
 
@@ -432,7 +486,7 @@ var peer = core.PeerID("peer")
 // CheckValidity, processor.Validate, processor.Save.
 func deliver(proc *processor.TrieNodeInterceptorProcessor, buf []byte, r *result) {
 	perr := mc.Try(func() {
-		n, err := trie.NewInterceptedTrieNode(buf, marsh, hasher)
+		n, err := trie.NewInterceptedTrieNode(append([]byte{}, buf...), marsh, hasher)
 		if err != nil {
 			r.rejected++
 			return
@@ -698,6 +752,12 @@ func main() {
 	}
 	debug.SetGCPercent(400)
 	mc.Main("C05", "fault_enumeration", func(c *mc.Ctx) {
+		if f := os.Getenv("VERIF_PPROF"); f != "" { // development aid only
+			if w, err := os.Create(f); err == nil {
+				_ = pprof.StartCPUProfile(w)
+				defer pprof.StopCPUProfile()
+			}
+		}
 		vtime.SetLogical(true)
 		vtime.AfterHook = afterHook
 		w := mc.Workers()
@@ -758,6 +818,9 @@ func main() {
 
 		// sources
 		keysets := allSources(keysAll, 4)
+		if v, err := strconv.Atoi(os.Getenv("C05_MAXSRC")); err == nil && v > 0 && v < len(keysets) { // development aid only
+			keysets = keysets[len(keysets)-v:]
+		}
 		srcs := make([]*source, len(keysets))
 		mc.Par(len(keysets), func(i int) { srcs[i] = buildSource(i, keysets[i]) })
 		var nodesTotal, shared, ncSame, ncOther, nMax int
